@@ -474,7 +474,7 @@ static var Thread_Val_Type(var self) {
 
 static void Thread_Mark(var self, var gc, void(*f)(var,void*)) {
   struct Thread* t = self;
-  if (self is current(Thread)) { mark(t->tls, gc, f); }
+  mark(t->tls, gc, f);
 }
 
 var Thread = Cello(Thread,
